@@ -239,4 +239,16 @@ func TestC04(t *testing.T) {
 	runProp(t, "C04", "family", 12000, 250000, GenC04(), CheckC04)
 }
 
-func init() { registerReplay("C04", "family", CheckC04) }
+// parents reached by operator histories (mutated, re-enabled, crossed over before) instead of constructed ones
+func CheckC04History(c HistoryCase, rec *Rec) error {
+	return runHistory(c, historyChecks{c04: true}, rec)
+}
+
+func TestC04History(t *testing.T) {
+	runProp(t, "C04", "history", 1500, 30000, genHistory(pick(60, 150)), CheckC04History)
+}
+
+func init() {
+	registerReplay("C04", "family", CheckC04)
+	registerReplay("C04", "history", CheckC04History)
+}
